@@ -116,6 +116,12 @@ def gen_case(rng, force_shape=None):
     if rng.random() < 0.10 and all("/" not in z for z in zones) and shape != "seplabel":
         kids = [dict(name=z, type="Process Zone", children=None) for z in zones]
         case["zone_tree"] = dict(name="Works", type="Site", children=kids)
+    elif rng.random() < 0.06 and shape != "seplabel":
+        # a user tree that consists of the root only (children omitted, null or empty) with every stream labelled with the root's own name
+        for s in streams:
+            s["zone"] = "Works"
+        case["zone_tree"] = rng.choice([dict(name="Works", type="Site"), dict(name="Works", type="Site", children=None),
+                                        dict(name="Works", type="Site", children=[])])
     vu = rng.random() < 0.25
     return dict(case=case, shape=shape, vu=vu)
 
@@ -414,6 +420,12 @@ def service_suite(ctx):
                        zone_tree=dict(name="Works", type="Site", children=[dict(name="Z0", type="Process Zone", children=None),
                                                                            dict(name="Z1", type="Process Zone", children=None)])),
              shape="gen", vu=False),                                                                                                       # D42: a declared zone without streams
+        dict(case=dict(streams=[S("Z0", "Hg", 170.0, 100.0, 800.0, 5.0), S("Z0", "Cg", 150.0, 220.0, 500.0, 5.0)],
+                       utilities=[U("CWg", "Cold", 85.0, 160.0, 5.0, 2.0)], options=dict(DO_AREA_TARGETING=True)), shape="glidecw", vu=False),   # D24 consequence (open finding)
+        dict(case=dict(streams=[S("Works", "H", 200.0, 100.0, 100.0), S("Works", "C", 50.0, 150.0, 80.0)], utilities=[], options={},
+                       zone_tree=dict(name="Works", type="Site")), shape="gen", vu=False),             # root-only user tree, children omitted, streams labelled with the root
+        dict(case=dict(streams=[S("Works", "H", 200.0, 100.0, 100.0), S("Works", "C", 50.0, 150.0, 80.0)], utilities=[], options={},
+                       zone_tree=dict(name="Works", type="Site", children=None)), shape="gen", vu=True),
         dict(case=dict(streams=[S("Z0", "H", 200.0, 100.0, 100.0), S("Z0", "C", 50.0, 100.000001, 100.0)], utilities=[], options={}), shape="tiny", vu=False),  # D43, ordinary spans
         dict(case=dict(streams=[S("Z0", "H", 290.0, 40.0, 64000.0, 5.0), S("Z0", "C", 300.0, 310.0, 0.25, 0.0)], utilities=[], options={}),
              shape="gen", vu=False),                                                                                                       # D45 end to end: IndexError in clean_composite_curve_ends
